@@ -48,6 +48,7 @@ pub struct Sim {
     /// threads nobody may wait for: finished, killed, or held back by a stall fault
     pub no_wait: Vec<AtomicBool>,
     pub dependent_waits: AtomicU64,
+    pub forced_preemptions: AtomicU64,
 }
 
 pub const Y_OP: u32 = 1; // between the library calls of a compound operation
@@ -118,6 +119,7 @@ impl Sim {
             ops_done: (0..n).map(|_| std::sync::atomic::AtomicUsize::new(0)).collect(),
             no_wait: (0..n).map(|_| AtomicBool::new(false)).collect(),
             dependent_waits: AtomicU64::new(0),
+            forced_preemptions: AtomicU64::new(0),
         })
     }
 
@@ -278,14 +280,16 @@ pub fn leave() -> u64 {
 /// enables this seam, hand the token to the scheduler and wait to be named again.
 /// No-op outside a simulation (reference evaluations, Miri runs).
 pub fn yield_here(kind: u32, at: &'static str) {
-    let cur = CUR.with(|c| c.borrow().clone());
-    if let Some((sim, me)) = cur {
-        if sim.yield_mask & kind != 0 {
-            YIELDS.with(|y| *y.borrow_mut() += 1);
-            sim.give_back(me, false, at);
-            sim.wait_turn(me);
+    crate::mc::with_hook_disabled(|| {
+        let cur = CUR.with(|c| c.borrow().clone());
+        if let Some((sim, me)) = cur {
+            if sim.yield_mask & kind != 0 {
+                YIELDS.with(|y| *y.borrow_mut() += 1);
+                sim.give_back(me, false, at);
+                sim.wait_turn(me);
+            }
         }
-    }
+    })
 }
 
 /// called from the function-entry hook when a revoked thread wakes up: park until named
@@ -317,6 +321,9 @@ pub fn sync_point(sim: &Sim, me: usize) {
 /// terminates here; the scheduler reports that through its livelock / deadlock path.
 /// Dependencies only point to lower indices, so the harness itself cannot create a cycle.
 pub fn wait_for_lower_thread(at: &'static str) {
+    crate::mc::with_hook_disabled(|| wait_for_lower_thread_inner(at))
+}
+fn wait_for_lower_thread_inner(at: &'static str) {
     let cur = CUR.with(|c| c.borrow().clone());
     if let Some((sim, me)) = cur {
         if me == 0 || sim.yield_mask & Y_READ == 0 {
@@ -338,4 +345,13 @@ pub fn wait_for_lower_thread(at: &'static str) {
             sim.wait_turn(me);
         }
     }
+}
+
+/// called from the function-entry hook when the thread's entry counter reaches a preemption point of
+/// the plan: an unconditional yield in the middle of whatever the thread is doing (instrumented build)
+pub fn forced_yield(sim: &Sim, me: usize) {
+    sim.forced_preemptions.fetch_add(1, Ordering::Relaxed);
+    YIELDS.with(|y| *y.borrow_mut() += 1);
+    sim.give_back(me, false, "function entry chosen by the plan");
+    sim.wait_turn(me);
 }
